@@ -48,15 +48,15 @@ def dime_safe(g):
     return cyclomatic == len(rings)
 
 
-def gen_molecule(rng, max_heavy=12, p_arom=0.3, p_ring=0.25, charged=True, hetero=True, triple=True, lowest_valence=False, p_fused=0.0, p_thio=0.0):
+def gen_molecule(rng, max_heavy=12, p_arom=0.3, p_ring=0.25, charged=True, hetero=True, triple=True, lowest_valence=False, p_fused=0.0, p_thio=0.0, p_het5=0.0):
     for _ in range(200):
-        g = _gen_once(rng, max_heavy, p_arom, p_ring, charged, hetero, triple, lowest_valence, p_fused, p_thio)
+        g = _gen_once(rng, max_heavy, p_arom, p_ring, charged, hetero, triple, lowest_valence, p_fused, p_thio, p_het5)
         if g is not None and dime_safe(g):
             return g
     raise RuntimeError('molecule generator failed')
 
 
-def _gen_once(rng, max_heavy, p_arom, p_ring, charged, hetero, triple, lowest_valence=False, p_fused=0.0, p_thio=0.0):
+def _gen_once(rng, max_heavy, p_arom, p_ring, charged, hetero, triple, lowest_valence=False, p_fused=0.0, p_thio=0.0, p_het5=0.0):
     g = nx.Graph()
     nring = [0]
 
@@ -101,8 +101,26 @@ def _gen_once(rng, max_heavy, p_arom, p_ring, charged, hetero, triple, lowest_va
             g.add_edge(x, y, order=1.5)
         return True
 
+    def add_het5_ring(anchor):
+        """pyrrole / furan / thiophene / imidazole skeleton in Kekule form (X1C=CC=C1): under the aromaticity definition the
+        documentation adopts its ring bonds are plain single and double bonds (X carries no double bond)"""
+        x = rng.choice([('N', 0), ('N', 0), ('O', 0), ('S', 0)])
+        kinds = [x, ('C', 0), ('C', 0), ('C', 0), ('C', 0)]
+        if rng.random() < 0.3:
+            kinds[rng.choice([2, 3])] = ('N', 0)        # imidazole / oxazole / thiazole
+        ring = [add_atom(k) for k in kinds]
+        for n in ring:
+            g.nodes[n]['cap'] = VAL[(g.nodes[n]['element'], 0)][0]
+        for (a, b), o in zip(zip(ring, ring[1:] + ring[:1]), [1, 2, 1, 2, 1]):
+            g.add_edge(a, b, order=o)
+        if anchor is not None:
+            att = [n for n in ring if free(g, n) >= 1]
+            g.add_edge(anchor, rng.choice(att), order=1)
+
     target = rng.randint(1, max_heavy)
-    if rng.random() < p_arom and target >= 6:
+    if p_het5 and rng.random() < p_het5 and target >= 5:
+        add_het5_ring(None)
+    elif rng.random() < p_arom and target >= 6:
         add_arom_ring(None)
         while rng.random() < p_fused and len(g) + 4 <= max_heavy + 4 and nring[0] < 3:
             if not add_fused_ring():
@@ -117,6 +135,9 @@ def _gen_once(rng, max_heavy, p_arom, p_ring, charged, hetero, triple, lowest_va
             break
         a = rng.choice(cands)
         r = rng.random()
+        if p_het5 and r > 1 - p_het5 * 0.3 and len(g) + 5 <= max_heavy + 4 and not g.nodes[a]['aromatic']:
+            add_het5_ring(a)
+            continue
         if r < p_arom * 0.5 and len(g) + 6 <= max_heavy + 4:
             add_arom_ring(a)
             if rng.random() < p_fused and len(g) + 4 <= max_heavy + 4:
